@@ -207,11 +207,14 @@ PROPS = {
                     "method calls that leave reply slots, replies, broadcast and unicast signals, Hello); then one request of the same kinds handled while allocation k fails, for k = 0,1,2,... until the request completes without the failure firing (typically 40-120 runs per case). "
                     "After each run: the frames at every client must be either the complete modelled effect or nothing but a NoMemory error to the caller; a NoMemory outcome is retried and must then produce the modelled effect; GetNameOwner/NameHasOwner/ListQueuedOwners/ListNames, "
                     "four probe signals exercising every rule, and the NoReply errors and NameOwnerChanged signals produced by closing every client must agree with the model; no libdbus block or descriptor may remain at shutdown. "
-                    "Library part (c14_liboom): see DESIGN.md."),
+                    "Library part (c14_liboom): generated valid messages (any field order, unknown fields, either byte order) under header edits (six string setters incl. clearing and 40-240 byte values, set_reply_serial), top-level appends, container appends, dbus_message_copy, marshal, demarshal; "
+                    "match-rule texts from 22 clause shapes (valid and invalid, up to 1.1 kB); bus configuration files (limits, 1-3 policy blocks of 5 contexts with 15 rule shapes, servicedir/includedir/user/fork/apparmor/syslog elements, unknown elements). Each operation runs once without injection (reference) and once per failing allocation index; "
+                    "a reported failure must leave the message marshalling to the bytes it had before and the repeated operation must succeed, a reported success must equal the reference, demarshal/parse must say NoMemory or the reference verdict, and the block count must return to its level."),
         level_note="Failures are injected into dbus_malloc/realloc and the memory pools (what libdbus' own countdown covers), not into the kernel or libc (socket buffers, getpwuid); pairs of failures are explored for a generated gap per case, not for all pairs.",
         rule=("case = (history, request) decoded from fuzzer input, enumerated over every failing allocation index. Non-trivial = >=2 prior operations, the countdown fired in >=1 run and >=1 run ended in NoMemory; distinct = FNV-1a of the normalised history and request."),
         phases=[P(kind="enum", bin="c14_busoom_enum", nopool_odd=True, quick=["420", "96"], thorough=["40000", "96"], shards_quick=14, shards_thorough=16),
                 # pairs of failures: the second one a generated gap (0-11 allocations) after the first (hook H3)
+                P(kind="enum", bin="c14_liboom_enum", quick=["2800", "128"], thorough=["400000", "128"], shards_quick=14, shards_thorough=16),
                 P(kind="enum", bin="c14_busoom_enum", nopool_odd=True, quick=["100210", "96", "100000"], thorough=["120000", "96", "100000"], shards_quick=14, shards_thorough=16, env={"VP_PAIRS": "1"})],
         floor_quick=100, floor_thorough=5000,
     ),
